@@ -43,9 +43,14 @@ type Case struct {
 	Class  string `json:"class"`  // prng | exhaustive | heavy | reject | multi
 	// Multi: several instances with their own memories ("who executes the grow"), see multi.go
 	Multi *MultiCase `json:"multi,omitempty"`
+	// Conc: concurrent grows of one shared memory, see conc.go
+	Conc *ConcCase `json:"conc,omitempty"`
 }
 
 func (cs Case) cfgKey() string {
+	if cs.Conc != nil {
+		return cs.Conc.key()
+	}
 	if cs.Multi != nil {
 		return cs.Multi.key()
 	}
@@ -53,6 +58,9 @@ func (cs Case) cfgKey() string {
 }
 
 func (cs Case) nSteps() int {
+	if cs.Conc != nil {
+		return cs.Conc.G * cs.Conc.K
+	}
 	if cs.Multi != nil {
 		return len(cs.Multi.Steps)
 	}
@@ -141,7 +149,7 @@ func (r *runner) logf(format string, a ...any) {
 
 // fail records a finding. state=true: the real memory may now differ from the model.
 func (r *runner) fail(state bool, sig, format string, a ...any) {
-	if !strings.HasPrefix(sig, "host:") {
+	if !strings.HasPrefix(sig, "host:") && !strings.HasPrefix(sig, "shared-concurrent:") {
 		// the host accessors are engine independent code (the witness still names the engine)
 		sig = r.eng + ":" + sig
 	}
@@ -1279,6 +1287,9 @@ func child(mode string, in json.RawMessage) any {
 	var cs Case
 	if err := json.Unmarshal(in, &cs); err != nil {
 		return &Result{Findings: []Finding{{Sig: "harness:bad-case", Detail: err.Error()}}}
+	}
+	if cs.Conc != nil {
+		return runConc(cs)
 	}
 	if cs.Multi != nil {
 		return runMulti(cs, false)
